@@ -10,4 +10,5 @@ for p in "$@"; do
 done
 git -C /repo checkout -- .
 (cd /verif/harness && CARGO_NET_OFFLINE=true cargo build --offline --release 2>&1 | tail -1)
+python3 /verif/tools/codegen.py >/dev/null
 git -C /repo status --short | head
